@@ -330,6 +330,8 @@ func (w *Worker) execOne(rc *simapi.RunConfig) {
 		r = w.runC03(rc)
 	case "cli-sched":
 		r = w.runC04CLI(rc)
+	case "analyzer-sched":
+		r = w.runC04Analyzer(rc)
 	case "lib-frame":
 		r = w.runC05Frame(rc)
 	case "cli-switch-fp":
